@@ -10,25 +10,25 @@ def C(technique, text, ref, extra_trust=""):
 
 CHECKS = {
  "C01": C("property-based testing (proptest): round-trip oracle over generated configurations, data and received sets, from 1+1 x 2 bytes to 2 GiB working sets",
-          "Generated-input search: tens of thousands (quick) to ~1M (thorough) encode/decode round trips over codec family x engine x configuration class x shard size x 8 loss-pattern families, the one-shot functions, every envelope corner at maximum loss, thousands of shards that are not corners, long shards up to 4 MiB, and (part big_roundtrip) working sets up to 768 MiB / 2 GiB with up to 400 shards per side; the oracle is exact (restored map == withheld originals, both directions). Sampling cannot prove the forall; it finds wrong bookkeeping, padding/truncation and kernels with high probability because the generators follow the code's case distinctions (chunk boundaries, odd layer, tails, corners).",
+          "Generated-input search: tens of thousands (quick) to ~1M (thorough) encode/decode round trips over codec family x engine x configuration class x shard size x 8 loss-pattern families, the one-shot functions, every envelope corner at maximum loss and with up to ALL k + r shards given, thousands of shards that are not corners (also with shards of 1-2 KiB), data with restricted byte values, long shards up to 4 MiB, and (part big_roundtrip) working sets up to 768 MiB / 2 GiB with up to 400 shards per side; the oracle is exact (restored map == withheld originals, both directions). Sampling cannot prove the forall; it finds wrong bookkeeping, padding/truncation and kernels with high probability because the generators follow the code's case distinctions (chunk boundaries, odd layer, tails, corners).",
           "DESIGN.md 4 C01"),
  "C02": C("property-based testing: differential against an independent closed-form reference (own GF(2^16) arithmetic) and against the frozen ancestor crate",
           "Every generated encode is compared symbol by symbol with G*data where G is the closed-form scaled Cauchy matrix evaluated with arithmetic built only from 0x1002D and the Cantor basis (no FFT, no crate table), for both rates, all engines, all chunk shapes and tails, plus envelope-corner configurations on sampled rows; multiples of 64 bytes are also compared with reed-solomon-16 0.1.0. Exploration, not proof: a wire-format change confined to a configuration class the generator never draws would be missed.",
           "DESIGN.md 4 C02", "reed-solomon-16 0.1.0 from the cargo cache"),
  "C03": C("property-based differential testing across engines (incl. Neon source on emulated intrinsics), contract-defined outputs only",
-          "Each generated primitive call and each generated round is executed on all six engines and compared bit for bit on exactly what the Engine contract defines; guard shards and trailing blocks prove confinement. Exploration over (pos, size up to 65536, truncated, aligned and unaligned skew, log_m, blocks, content, buffer address alignment).",
+          "Each generated primitive call and each generated round is executed on all six engines and compared bit for bit on exactly what the Engine contract defines; guard shards and trailing blocks prove confinement. Exploration over (pos, size up to 65536, truncated, aligned and unaligned skew, log_m, blocks, structured and random content, arbitrary eval_poly element values, buffer address alignment).",
           "DESIGN.md 4 C03", "seven emulated Neon intrinsics (rsv-neon/src/neon_emu.rs)"),
  "C04": C("property-based metamorphic testing: big-shard coding vs per-slot 2-byte coding through the documented byte placement",
-          "For generated sizes covering every tail length, outputs must have exactly the shard size and every (or sampled) slot must equal the result of coding that slot alone as 2-byte shards, for encode and decode, half of the cases with poisoned padding lanes. Exploration.",
+          "For generated sizes covering every tail length, outputs must have exactly the shard size and every (or sampled) slot must equal the result of coding that slot alone as 2-byte shards, for encode and decode, half of the cases with poisoned padding lanes; one case in five with hundreds to thousands of shards of up to 2 KiB. Exploration.",
           "DESIGN.md 4 C04"),
  "C05": C("model-based / stateful property testing: generated call histories (incl. related configurations, long-lived objects, big working spaces), differential against a freshly constructed object, adversarial stale memory via poison hook; libFuzzer (ASan) in thorough",
-          "Generated histories (resets across counts, sizes and rates, abandoned rounds, failing calls, work recycling across families and engines) on one object; at every encode/decode the same calls are replayed on a fresh object and all results must be identical; with the poison hook every retained byte of working memory is noise, which realises the property's 'all possible stale contents'. Histories include related configurations (same, permuted, neighbouring, retried after a failure); part big_history repeats the oracle on working spaces up to 256 MiB / 2 GiB, part long_life on objects that live through up to ~140 000 rounds. Exploration of the history space.",
+          "Generated histories (resets across counts, sizes and rates, abandoned rounds, failing calls, work recycling across families and engines) on one object; at every encode/decode the same calls are replayed on a fresh object and all results must be identical; with the poison hook every retained byte of working memory is noise, which realises the property's 'all possible stale contents'. Histories include related configurations (same, permuted, neighbouring, retried after a failure, returned to); part reset_streaks takes one object through streaks of up to 300 consecutive resets / recycles / failing calls; part big_history repeats the oracle on working spaces up to 256 MiB / 2 GiB, part long_life on objects that live through up to ~140 000 rounds. Exploration of the history space.",
           "DESIGN.md 4 C05"),
  "C06": C("model-based property testing: executable model of documented preconditions, extreme-value argument pools, panic capture",
-          "Generated calls on every public entry point in generated object states; the model yields the set of truthful errors; Ok iff the set is empty, otherwise the error must be a member; any unwind is a violation. Built with overflow checks on. Exploration over arguments up to usize::MAX and reachable states.",
+          "Generated calls on every public entry point in generated object states; the model yields the set of truthful errors; Ok iff the set is empty, otherwise the error must be a member; any unwind is a violation. Built with overflow checks on. Part after_reset_streaks requires Ok for every valid call after up to 300 consecutive resets. Exploration over arguments up to usize::MAX and reachable states.",
           "DESIGN.md 4 C06"),
  "C07": C("stateful property testing with a twin object (fault injection at every point of a round)",
-          "Histories biased towards failing calls; a twin object receives only the calls that succeeded; all later results must be equal and nothing may unwind. This is literally 'as if the failed call had not been made'. Part big_twin repeats it on long shards. Exploration.",
+          "Histories biased towards failing calls; a twin object receives only the calls that succeeded; all later results must be equal and nothing may unwind. This is literally 'as if the failed call had not been made'. Part big_twin repeats it on long shards; part failure_streaks compares an object that lived through up to 300 consecutive failing calls with a fresh one. Exploration.",
           "DESIGN.md 4 C07"),
  "C08": C("exhaustive enumeration of [0,65537]^2 x 3 rates against the README envelope + property-based boundary testing of constructors + round trips at every corner",
           "The supports predicate of the three rates is decided exhaustively on [0,65537]^2 (1.3e10 evaluations per run) and on usize extremes; all other supports entry points, validate/new/reset/Rate::encoder/decoder are explored on the boundary band; every staircase corner is round-tripped. The predicate part is exhaustive, the rest exploration.",
@@ -40,10 +40,10 @@ CHECKS = {
           "Generated argument tuples built from a valid base with injected faults, with and without recovery shards, passed through four kinds of iterator (slice, loose size_hint, no size_hint, re-entrant), including MiB-sized shards and count pairs on the envelope boundary; streaming Ok => identical result; streaming Err => truthful error; never Ok on faulty input. Exploration.",
           "DESIGN.md 4 C10"),
  "C11": C("property-based metamorphic testing over arrival permutations and supersets",
-          "One encoded instance decoded under two generated arrival orders, a generated superset and the all-originals case; results must be identical / restricted / empty. Exploration of permutations and supersets.",
+          "One encoded instance decoded under two generated arrival orders, a generated superset and the all-originals case; results must be identical / restricted / empty; part corner_supersets does it on every staircase corner of the envelope with the superset of all 65536 shards. Exploration of permutations and supersets.",
           "DESIGN.md 4 C11"),
  "C12": C("model-based property testing of the accessor contract over generated probes and consecutive rounds",
-          "Generated configurations, received sets, index probes up to usize::MAX and up to 20 consecutive rounds on one encoder and decoder; accessors and iterators must agree with the model exactly; part iter_protocol drives both result iterators with generated sequences of std Iterator operations against a model iterator. Exploration.",
+          "Generated configurations, received sets, index probes up to usize::MAX and up to 20 consecutive rounds on one encoder and decoder; accessors and iterators must agree with the model exactly; part iter_protocol drives both result iterators with generated sequences of std Iterator operations, 22 consuming methods called directly on partly consumed iterators, and two interleaved iterators, against a model iterator. Exploration.",
           "DESIGN.md 4 C12"),
  "C13": C("property-based metamorphic testing (linearity: xor, zero, scalar multiple with independent field arithmetic)",
           "Oracle-free algebraic laws over generated data pairs and constants for all families, engines and sizes. Exploration.",
@@ -55,10 +55,10 @@ CHECKS = {
           "Tables exhaustively equal their definitions; mul for every log_m (all symbols in thorough); fft/ifft against LCH-basis polynomial evaluation; eval_poly against the erasure-locator log sum modulo 65535. Tables/mul exhaustive, transforms explored.",
           "DESIGN.md 4 C15"),
  "C16": C("generated stress programs in fresh child processes (racing lazy table initialisation, hand-over mid-round), sequential-result oracle",
-          "Generated thread programs are run in fresh processes so every program races first-touch initialisation; results must equal sequential execution and the child must exit 0; systematic hammer programs (every engine x family x encoder/decoder, thousands of shards, 48 threads, one-shot calls that wait for each other) and, in thorough, ThreadSanitizer builds. The OS picks the schedules: this is stress exploration and cannot enumerate interleavings; a watchdog hit is inconclusive.",
+          "Generated thread programs are run in fresh processes so every program races first-touch initialisation; results must equal sequential execution and the child must exit 0; systematic hammer programs (every engine x family x encoder/decoder, thousands of shards, 48 threads, one-shot calls that wait for each other, rounds completed inside thread-local destructors while the thread exits) and, in thorough, ThreadSanitizer builds. The OS picks the schedules: this is stress exploration and cannot enumerate interleavings; a watchdog hit is inconclusive.",
           "DESIGN.md 4 C16", "the OS scheduler for interleavings"),
  "C17": C("stateful metamorphic property testing with a counting global allocator (measured need; allocation in fitting regions must not scale with the configuration)",
-          "Generated histories of resets, recycling and rounds; executed at three scales (as generated, shard sizes x3, counts x2): whenever the measured need of the target does not exceed what the object has held before, the bytes allocated in the region must not grow with the scale (a fixed-size scratch is tolerated, shard-proportional memory is not); part big_resets does the same for working spaces up to 512 MiB / 4 GiB. Exploration.",
+          "Generated histories of resets, recycling and rounds; executed at three scales (as generated, shard sizes x3, counts x2): whenever the measured need of the target does not exceed what the object has held before, the bytes allocated in the region must not grow with the scale (a fixed-size scratch is tolerated, shard-proportional memory is not); part big_resets does the same for working spaces up to 512 MiB / 4 GiB; part long_runs measures runs of up to 2100 / 66000 rounds or fitting resets as one region. Exploration.",
           "DESIGN.md 4 C17", "the counting allocator in rsv/src/alloc.rs"),
 }
 
